@@ -201,6 +201,44 @@ fn judge_mesh(pts: &[Point3], faces: &[[u32; 3]], case: &Case, l: &mut Local) {
             l.check("edge table is exact and boundary loops use every boundary edge exactly once", "", o.starts_with("OK"), mk, || format!("{:?}: {} (script {:?})", faces, o, script));
         }
     }
+    // ---- patch boundary loops: on consistently wound meshes they use every boundary edge exactly once
+    let consistent = directed.values().all(|c| *c == 1) && !r.nonmanifold && bcount.values().all(|c| *c <= 2);
+    if consistent && !r.boundary.is_empty() {
+        let (runs, outs, _capped) = explore_choices(MAX_DEV, EXEC_CAP, || {
+            verif::set_budget(budget * 4);
+            let res = guarded(|| mesh.get_patch_boundary_points().map_err(|e| e.to_string()));
+            verif::set_budget(u64::MAX);
+            match res {
+                Ok(Ok(loops)) => {
+                    let idx_of = |p: &Point3| pts.iter().position(|q| q == p).map(|i| i as u32);
+                    let mut used: Vec<(u32, u32)> = Vec::new();
+                    let mut bad = false;
+                    for lp in loops.iter() {
+                        for i in 0..lp.len() {
+                            match (idx_of(&lp[i]), idx_of(&lp[(i + 1) % lp.len()])) {
+                                (Some(a), Some(b)) => used.push(ukey(a, b)),
+                                _ => bad = true,
+                            }
+                        }
+                    }
+                    used.sort();
+                    if bad || used != r.boundary {
+                        format!("BAD {:?}", used)
+                    } else {
+                        "OK".to_string()
+                    }
+                }
+                Ok(Err(e)) => format!("ERR {}", e),
+                Err(e) => format!("PANIC {}", e),
+            }
+        });
+        l.evals_n(runs as u64);
+        l.transitions += runs as u64;
+        l.bucket("patch boundary loops on a consistently wound mesh");
+        for (o, script) in outs.iter() {
+            l.check("patch boundary loops use every boundary edge exactly once", "", o == "OK", mk, || format!("{:?}: {} (script {:?})", faces, o, script));
+        }
+    }
     // ---- patch boundaries terminate
     verif::set_budget(budget * 4);
     let pb = guarded(|| mesh.get_patch_boundary_points().map(|v| v.len()).map_err(|e| e.to_string()));
@@ -550,7 +588,7 @@ pub fn run(tier: Tier) -> i32 {
     let mut cx = Ctx::new("C12", tier, "model_checking");
     cx.rule = "inputs: every list of <= 4 oriented triangles over 5 vertices and <= 4 (thorough: 5) over 6 vertices (thorough: also <= 3 over 7) (all small disks, fans, bow-ties, pillows, flipped and non-manifold configurations), 10 structured meshes each also with every single face flipped, every subset of <= 5 cells of a 2x2x3 voxel block, every ordered list of <= 4 directed pairs over 5 indices, box and cylinder generators; environment: for every mesh / voxel set all hash-map and hash-set traversal orders are choice points answered by the explorer (all permutations up to 4 elements, rotations and reversals beyond), explored exhaustively up to 2 departures from the default order; termination decided by tick budgets 10*3F+100. distinct = distinct inputs".into();
     cx.bounds = json!({"max_deviations": MAX_DEV, "execution_cap_per_input": EXEC_CAP, "faces_v5": 4, "faces_v6": tier.pick(4, 5), "faces_v7": tier.pick(0, 3), "pair_list_len": 4});
-    cx.require(&["edge shared by more than two faces", "closed mesh", "mesh with boundary", "inconsistent winding", "vertex with more than two boundary edges", "structured mesh", "structured mesh with one face flipped", "voxel set with several clusters", "voxel set with one cluster", "path or cycle input", "branching input", "box generator", "cylinder generator"]);
+    cx.require(&["patch boundary loops on a consistently wound mesh", "edge shared by more than two faces", "closed mesh", "mesh with boundary", "inconsistent winding", "vertex with more than two boundary edges", "structured mesh", "structured mesh with one face flipped", "voxel set with several clusters", "voxel set with one cluster", "path or cycle input", "branching input", "box generator", "cylinder generator"]);
     cx.assume("iteration orders beyond 4 elements are represented by rotations and reversals of the sorted order; at most 2 non-default traversals per execution");
     let cs = cases(tier);
     let l = sweep(&cs, judge);
